@@ -192,11 +192,14 @@ class Inliner:
                 continue
             self._propagate_types(locals_, blocks)
             callee = t["callee"]
+            self._rework = []
             new = self._expand_adaptor(b, t, callee, locals_, blocks)
             if new:
                 for nb in new:
                     prov.append((prov[b][0], prov[b][1], prov[b][2]))
                     work.append((nb, chain, self_subst))
+                for rb in self._rework:
+                    work.append((rb, chain, self_subst))
                 continue
             t["_blk"] = blocks[b]
             t["_blocks"] = blocks
@@ -322,6 +325,36 @@ class Inliner:
         "core::option::Option::<T>::unwrap_or_else": ("Option", "Some", "None", "payload", "call0"),
     }
 
+    def _expand_ne(self, b, t, callee, locals_, blocks):
+        """`a != b` on a type of the crate that only defines `eq` (derive(PartialEq) or a manual impl): the provided
+        `ne` of core is `!eq(a, b)`."""
+        st = callee.get("self_ty") or {}
+        adt = st.get("adt")
+        if not adt or not adt.startswith(self.facts.crate + "::") or st.get("peel", 0) != 0:
+            return None
+        impl = None
+        for f in self.facts.fns.values():
+            if f.f.get("impl_trait") == "core::cmp::PartialEq" and (f.f.get("impl_self") or {}).get("adt") == adt and (f.f.get("impl_self") or {}).get("peel", 0) == 0:
+                if f.name == "ne":
+                    return None     # the type has its own `ne`: resolved normally
+                if f.name == "eq":
+                    impl = f
+        if impl is None:
+            return None
+        span = {k: t.get(k) for k in ("file", "line", "exp", "macro")}
+        bl = len(locals_)
+        locals_.append({"ty": {"s": "bool", "k": "bool", "hp": False, "nd": False, "dp": 0}, "name": None})
+        nb = len(blocks)
+        goto_t = {"k": "goto", "target": t["target"], **span} if t["target"] is not None else {"k": "unreachable", **span}
+        blocks.append({"cleanup": blocks[b]["cleanup"], "stmts": [{"k": "assign", "dst": copy.deepcopy(t["dst"]), "rv": {"k": "un", "op": "Not", "a": {"k": "move", "pl": {"l": bl, "p": []}}}, **span}], "term": goto_t})
+        ecallee = dict(callee)
+        ecallee.update({"def": "core::cmp::PartialEq::eq", "full": callee.get("full", "").replace("::ne", "::eq"), "resolved": impl.path, "rk": "item", "resolved_crate": self.facts.crate})
+        nt = dict(t)
+        nt.update({"callee": ecallee, "dst": {"l": bl, "p": []}, "target": nb})
+        blocks[b]["term"] = nt
+        self._rework.append(b)
+        return [nb]
+
     def _expand_for_each(self, b, t, callee, locals_, blocks):
         """`iter.for_each(f)` with a statically known closure / fn item becomes the loop it abbreviates:
         loop { match Iterator::next(&mut iter) { Some(x) => f(x), None => break } }"""
@@ -348,6 +381,13 @@ class Inliner:
         body = hdr + 2
         done = hdr + 3
         itty = t.get("argtys", [unk])[0] if t.get("argtys") else unk
+        # the element type is the closure's parameter type
+        if fty.get("k") == "closure":
+            cf = self.facts.fn(fty["closure"])
+            if cf is not None and cf.argc >= 2:
+                ity = cf.locals[2]["ty"]
+                locals_[ol]["ty"] = dict(locals_[ol]["ty"], s="core::option::Option<%s>" % ity.get("s", "?"))
+                locals_[pl_]["ty"] = ity
         next_callee = {"def": "core::iter::Iterator::next", "full": "core::iter::Iterator::next", "crate": "core", "args": [], "targs": [], "local": False,
                        "trait": "core::iter::Iterator", "self_ty": itty}
         blocks.append({"cleanup": cleanup, "stmts": [{"k": "assign", "dst": {"l": rl, "p": []}, "rv": {"k": "ref", "mut": True, "pl": {"l": it, "p": []}}, **span}],
@@ -535,6 +575,10 @@ class Inliner:
     def _expand_adaptor(self, b, t, callee, locals_, blocks):
         if callee is not None and callee["def"] in ("core::cell::Cell::<T>::update", "core::cell::Cell::<T>::replace", "core::cell::Cell::<T>::take"):
             r = self._expand_cell(b, t, callee, locals_, blocks)
+            if r is not None:
+                return r
+        if callee is not None and callee["def"] == "core::cmp::PartialEq::ne" and callee.get("resolved") in (None, "core::cmp::PartialEq::ne"):
+            r = self._expand_ne(b, t, callee, locals_, blocks)
             if r is not None:
                 return r
         if callee is not None and callee["def"] == "core::iter::Iterator::for_each":
